@@ -5,13 +5,13 @@ import Midgard.Model.DatasetRecords
 /-!
 Driver for C09.  One line = one whole history:
 
-  `c09 run <units> <op> | <op> | …`
+  `c09 run <units> <time conversions | -> <op> | <op> | …`
 
 answers, per operation, `ok:<out>:<observation of the whole world>` or `ERR:<enum>` (the history
 stops at the first error), joined by ` || `.
 
 Encodings (no blanks inside a token): rows `r;r;r` (`[]` if none), a row `s,s,s`, a scalar
-`n<rat>` | `nan` | `t<hex>` | `b0` | `b1`; a path `a.b.c`; a reference `o<k>` | `f<d>:<path>` | `-`;
+`n<rat>` | `nan` | `t<hex>` | `b0` | `b1`; an `obj` may end with the tag `<scale>/<format>` of a time; a path `a.b.c`; a reference `o<k>` | `f<d>:<path>` | `-`;
 an index `m0110` | `i1,-2`; the unit table `from>to=rat,…` or `-`; `diff <d> <e> <r> <index fields a,b | -> <copy_self 0|1>
 <copy_other 0|1>` puts `ds[d].difference(ds[e], …)` into slot `r`.
 -/
@@ -71,10 +71,19 @@ def parseIndex? (s : String) : Option Index :=
   else none
 
 def parseUnits? (s : String) : Option Units :=
-  if s == "-" then some [] else
-  (s.splitOn ",").mapM (fun e => match e.splitOn "=" with
+  if s == "-" then some {} else
+  ((s.splitOn ",").mapM (fun (e : String) => match e.splitOn "=" with
     | [ft, q] => match ft.splitOn ">", parseRat? q with
       | [f, t], some q => some (f, t, q)
+      | _, _ => none
+    | _ => none)).map (fun t => { table := t })
+
+/-- the time conversion table: `<from tag>><to tag>><row>=<row>&…` or `-` -/
+def parseConv? (s : String) : Option Conv :=
+  if s == "-" then some [] else
+  (s.splitOn "&").mapM (fun (e : String) => match e.splitOn "=" with
+    | [k, v] => match k.splitOn ">", parseRow? v with
+      | [f, t, r], some v => (parseRow? r).map (fun r => ((f, t, r), v))
       | _, _ => none
     | _ => none)
 
@@ -94,7 +103,9 @@ def parseNats? (s : String) : Option (List Nat) :=
 def parseOp? : List String → Option Op
   | ["new", d, n] => do pure (.new (← d.toNat?) (← n.toNat?))
   | ["obj", k, ndim, cols, rows, o, r] => do
-    pure (.obj (← parseKind? k) (← ndim.toNat?) (← cols.toNat?) (← parseRows? rows) (← parseRef? o) (← parseRef? r))
+    pure (.obj (← parseKind? k) (← ndim.toNat?) (← cols.toNat?) (← parseRows? rows) (← parseRef? o) (← parseRef? r) "")
+  | ["obj", k, ndim, cols, rows, o, r, tag] => do
+    pure (.obj (← parseKind? k) (← ndim.toNat?) (← cols.toNat?) (← parseRows? rows) (← parseRef? o) (← parseRef? r) tag)
   | ["add", d, p, k, v, u, l] => do
     let v ← parseRef? v
     pure (.add (← d.toNat?) (← parsePath? p) (← parseKind? k) (← v) (parseOptStr u) (← l.toNat?))
@@ -135,7 +146,7 @@ def renderObj (h : Heap) : Nat → Nat → List Nat → String × List Nat
         let (sr, seen) := match ob.refPos with
           | none => ("-", seen)
           | some a => renderObj h fuel a seen
-        (s!"#{k}\{{showKind ob.kind};{ob.ndim};{ob.cols};{showRows ob.rows}|o={so}|r={sr}}", seen)
+        (s!"#{k}\{{showKind ob.kind};{ob.ndim};{ob.cols};{showRows ob.rows}|o={so}|r={sr}{if ob.tag.isEmpty then "" else "|g=" ++ ob.tag}}", seen)
 
 def renderField (h : Heap) : Field → List Nat → String × List Nat
   | .leaf n k o no u l, seen =>
@@ -191,6 +202,21 @@ def recordsOut (w : W) : Op → Option String
     | _, _ => none
   | _ => none
 
+/-- the scale / format tag of a top-level field (`""` if it is no time) -/
+def fieldTag (h : Heap) (x : DS) (n : String) : String :=
+  match getField x.fields n with
+  | some (.leaf _ _ o _ _ _) => (h[o]?.map (·.tag)).getD ""
+  | _ => ""
+
+/-- outside the modelled fragment of `difference`: index fields that are times of different scale / format in the
+two datasets (their values are not comparable: `intersect1d` compares datetimes with floats) -/
+def indexTagsDiffer (w : W) : Op → Bool
+  | .difference d e _ (some names) _ _ =>
+    match w.getDs d, w.getDs e with
+    | .ok x, .ok y => names.any (fun n => fieldTag w.heap x n != fieldTag w.heap y n)
+    | _, _ => false
+  | _ => false
+
 /-- an operation prefixed with the token `q` (set-up) answers `ok:-:~` without rendering the world -/
 def runOps (w : W) : List (List String) → List String
   | [] => []
@@ -201,6 +227,7 @@ def runOps (w : W) : List (List String) → List String
     match parseOp? ts with
     | none => ["bad-op"]
     | some op =>
+      if indexTagsDiffer w op then ["ERR:unsupported"] else
       match step w op with
       | .error e => ["ERR:" ++ showErr e]
       | .ok (w', out) =>
